@@ -2,7 +2,7 @@
 // (type 0x0404): the field's own length and the two 16-bit lengths inside it (nonce length,
 // ciphertext length) at the integer edges of every comparison a decoder can make between them.
 //
-//	(a) inner pairs (nonceLen, cipherTextLen) in a 40-byte field (32 value bytes behind the two
+//	(a) 45 inner pairs (nonceLen, cipherTextLen) in a 40-byte field (32 value bytes behind the two
 //	    length fields): sums that wrap 2^16 (to 0, to a small value, to the value length, with
 //	    and without the 8 header bytes added), sums just below / at / above the value length,
 //	    the field length, the bytes that follow in the datagram; each alone too large.
